@@ -364,11 +364,11 @@ namespace bluetoe {
                 if ( security_result != details::attribute_access_result::success )
                     return security_result;
 
-                if ( !has_read_access )
-                    return details::attribute_access_result::read_not_permitted;
-
                 if ( args.type != details::attribute_access_type::read )
                     return details::attribute_access_result::write_not_permitted;
+
+                if ( !has_read_access )
+                    return details::attribute_access_result::read_not_permitted;
 
                 if ( args.buffer_offset > sizeof( T ) )
                     return details::attribute_access_result::invalid_offset;
